@@ -138,6 +138,12 @@ func explodeOperator(d *dataTreeNavigator, context Context, expressionNode *Expr
 	return context, nil
 }
 
+// a merge key is a plain `<<` (which yaml resolves to !!merge); a string that
+// merely reads "<<" (quoted in yaml, or any key of a JSON object) is ordinary data
+func isMergeKey(keyNode *CandidateNode) bool {
+	return keyNode.Value == "<<" && keyNode.Tag != "!!str"
+}
+
 func reconstructAliasedMap(node *CandidateNode, context Context) error {
 	var newContent = list.New()
 	// can I short cut here by prechecking if there's an anchor in the map?
@@ -147,7 +153,7 @@ func reconstructAliasedMap(node *CandidateNode, context Context) error {
 		keyNode := node.Content[index]
 		valueNode := node.Content[index+1]
 		log.Debugf("traversing %v", keyNode.Value)
-		if keyNode.Value != "<<" {
+		if !isMergeKey(keyNode) {
 			err := overrideEntry(node, keyNode, valueNode, index, context.ChildContext(newContent))
 			if err != nil {
 				return err
@@ -208,7 +214,7 @@ func explodeNode(node *CandidateNode, context Context) error {
 		hasAlias := false
 		for index := 0; index < len(node.Content); index = index + 2 {
 			keyNode := node.Content[index]
-			if keyNode.Value == "<<" {
+			if isMergeKey(keyNode) {
 				hasAlias = true
 				break
 			}
